@@ -43,6 +43,10 @@ pub struct RlCaller {
     pub lat: u64,
     /// cancel this many ms after arrival (>= 1)
     pub cancel_after: Option<u64>,
+    /// the response future is obtained from call() this many ms before it is first polled
+    /// (the arrival, for every rule below, is the first poll: that is when a lazy future starts)
+    #[serde(default)]
+    pub call_early: u64,
 }
 
 #[derive(Clone, Debug, Serialize, Deserialize)]
@@ -109,12 +113,14 @@ fn case_strategy(tier: Tier) -> BoxedStrategy<RlCase> {
             8 => Just(None),
             2 => (1u64..=200).prop_map(Some),
         ],
+        prop_oneof![6 => Just(0u64), 1 => 1u64..=30, 1 => (1u64..=20).prop_map(|k| k * 10)],
     )
-        .prop_map(|(gap, clone, lat, cancel_after)| RlCaller {
+        .prop_map(|(gap, clone, lat, cancel_after, call_early)| RlCaller {
             gap,
             clone,
             lat,
             cancel_after,
+            call_early,
         });
     (
         0u8..3,
@@ -282,6 +288,19 @@ async fn interp(case: &RlCase) -> Verdict {
             }
         }
     }
+    // instant of call() (the future is created then, and first polled at at[i])
+    let mut created: Vec<u64> = (0..n)
+        .map(|i| at[i].saturating_sub(case.callers[i].call_early))
+        .collect();
+    if let Some((s0, s1)) = stall {
+        for (i, c) in created.iter_mut().enumerate() {
+            if *c > s0 && *c < s1 {
+                *c = s1.min(at[i]);
+            }
+        }
+    }
+    let mut held: Vec<Option<futures::future::BoxFuture<'static, Result<crate::svc::Resp, RateLimiterServiceError<crate::svc::SErr>>>>> =
+        (0..n).map(|_| None).collect();
     let overlaps_stall = |from: u64, to: u64| stall.map_or(false, |(s0, s1)| from < s1 && to >= s0);
     let horizon = at.iter().copied().max().unwrap_or(0).max(stall.map_or(0, |s| s.1))
         + if forever {
@@ -317,7 +336,7 @@ async fn interp(case: &RlCase) -> Verdict {
         }
         debug_assert_eq!(sim::now(), t);
         for i in 0..n {
-            if at[i] == t {
+            if created[i] == t {
                 let req = Req {
                     id: i as u32,
                     key: 0,
@@ -325,8 +344,12 @@ async fn interp(case: &RlCase) -> Verdict {
                 };
                 let s = &mut clones[(case.callers[i].clone % case.clones) as usize];
                 let _ = futures::future::poll_fn(|cx| s.poll_ready(cx)).await;
-                let fut = s.call(req);
-                task[i] = Some(sim.spawn_call(fut, map_outcome));
+                held[i] = Some(Box::pin(s.call(req)));
+            }
+            if at[i] == t {
+                if let Some(fut) = held[i].take() {
+                    task[i] = Some(sim.spawn_call(fut, map_outcome));
+                }
             }
         }
         for i in 0..n {
@@ -614,6 +637,9 @@ async fn interp(case: &RlCase) -> Verdict {
     }
     if forever {
         v.classes.push("timeout_duration_max");
+    }
+    if (0..n).any(|i| created[i] < at[i]) {
+        v.classes.push("first_poll_later_than_call");
     }
     v.classes.push(match case.window {
         0 => "fixed",
